@@ -25,9 +25,10 @@ CONSTANTS H,        \* length of the free suffix
           CatSel,   \* set of catalogue entry numbers to run
           Wide      \* TRUE: thorough alphabets
 
-VARIABLES cat, pc, nfree
+VARIABLES cat, pc, nfree,
+          prev     \* the reference graph before the last step (history variable for EsInv)
 
-mcvars == <<objs, uq, glob, cst, ust, log, cat, pc, nfree>>
+mcvars == <<objs, uq, glob, cst, ust, log, cat, pc, nfree, prev>>
 
 -----------------------------------------------------------------------------
 (* operation records *)
@@ -87,30 +88,20 @@ SiblingFocus ==   \* 1 and 3 share a shape and the prototype 2
 CatEntry(u, pre, alpha) == [uq |-> u, glob |-> 0, pre |-> pre, alpha |-> alpha]
 GlobEntry(u, g, pre, alpha) == [uq |-> u, glob |-> g, pre |-> pre, alpha |-> alpha]
 
-Cat == <<
-  \* 1: data property on the prototype, behind another property, get and set sites warm
-  CatEntry(FFF, <<P(1, 2), D(2, "b", "dw"), D(2, "a", "dw"), G(1, "a"), G(1, "a")>>, ProtoFocus),
-  \* 2: accessor on the prototype, getter and setter cached through the prototype
-  CatEntry(FFF, <<P(1, 2), D(2, "b", "dw"), D(2, "a", "as"), G(1, "a"), S(1, "a"), G(1, "a")>>, ProtoFocus),
-  \* 3: own data property behind another property
-  CatEntry(FFF, <<D(1, "b", "dw"), D(1, "a", "dw"), G(1, "a"), S(1, "a"), S(1, "a")>>, OwnFocus),
-  \* 4: own accessor
-  CatEntry(FFF, <<D(1, "b", "dw"), D(1, "a", "as"), G(1, "a"), S(1, "a"), S(1, "a")>>, OwnFocus),
-  \* 5: unique-shape receiver, own data property
-  CatEntry(TFF, <<D(1, "b", "dw"), D(1, "a", "dw"), G(1, "a"), S(1, "a"), S(1, "a")>>, OwnFocus),
-  \* 6: unique-shape receiver, property on the (shared-shape) prototype
-  CatEntry(TFF, <<P(1, 2), D(2, "b", "dw"), D(2, "a", "dw"), G(1, "a"), G(1, "a")>>, ProtoFocus),
-  \* 7: shared-shape receiver, unique-shape prototype
-  CatEntry(FTF, <<P(1, 2), D(2, "b", "dw"), D(2, "a", "dw"), G(1, "a"), G(1, "a")>>, ProtoFocus),
-  \* 8: chain of three, property on the grand-prototype
-  CatEntry(FFF, <<P(1, 2), P(2, 3), D(3, "a", "dw"), G(1, "a"), G(2, "a"), S(2, "a")>>, ChainFocus),
-  \* 9: two receivers with one shape
-  CatEntry(FFF, <<P(1, 2), P(3, 2), D(1, "a", "dw"), D(3, "a", "dw"), G(1, "a"), S(1, "a"), G(3, "a")>>, SiblingFocus),
-  \* 10: unique receiver and unique prototype, accessor on the prototype
-  CatEntry(TTF, <<P(1, 2), D(2, "a", "as"), G(1, "a"), S(1, "a"), G(1, "a")>>, ProtoFocus),
-  \* 11: nothing set up: the sites start cold
-  CatEntry(FFF, <<P(1, 2)>>, ProtoFocus \cup {D(1, "b", "dw")})
->>
+\* catalogue entry c (a CASE so that only the selected entry is evaluated)
+CatAt(c) ==
+  CASE c = 1 -> CatEntry(FFF, <<P(1, 2), D(2, "b", "dw"), D(2, "a", "dw"), G(1, "a"), G(1, "a")>>, ProtoFocus)   \* 1: data property on the prototype, behind another property, get and set sites warm
+    [] c = 2 -> CatEntry(FFF, <<P(1, 2), D(2, "b", "dw"), D(2, "a", "as"), G(1, "a"), S(1, "a"), G(1, "a")>>, ProtoFocus)   \* 2: accessor on the prototype, getter and setter cached through the prototype
+    [] c = 3 -> CatEntry(FFF, <<D(1, "b", "dw"), D(1, "a", "dw"), G(1, "a"), S(1, "a"), S(1, "a")>>, OwnFocus)   \* 3: own data property behind another property
+    [] c = 4 -> CatEntry(FFF, <<D(1, "b", "dw"), D(1, "a", "as"), G(1, "a"), S(1, "a"), S(1, "a")>>, OwnFocus)   \* 4: own accessor
+    [] c = 5 -> CatEntry(TFF, <<D(1, "b", "dw"), D(1, "a", "dw"), G(1, "a"), S(1, "a"), S(1, "a")>>, OwnFocus)   \* 5: unique-shape receiver, own data property
+    [] c = 6 -> CatEntry(TFF, <<P(1, 2), D(2, "b", "dw"), D(2, "a", "dw"), G(1, "a"), G(1, "a")>>, ProtoFocus)   \* 6: unique-shape receiver, property on the (shared-shape) prototype
+    [] c = 7 -> CatEntry(FTF, <<P(1, 2), D(2, "b", "dw"), D(2, "a", "dw"), G(1, "a"), G(1, "a")>>, ProtoFocus)   \* 7: shared-shape receiver, unique-shape prototype
+    [] c = 8 -> CatEntry(FFF, <<P(1, 2), P(2, 3), D(3, "a", "dw"), G(1, "a"), G(2, "a"), S(2, "a")>>, ChainFocus)   \* 8: chain of three, property on the grand-prototype
+    [] c = 9 -> CatEntry(FFF, <<P(1, 2), P(3, 2), D(1, "a", "dw"), D(3, "a", "dw"), G(1, "a"), S(1, "a"), G(3, "a")>>, SiblingFocus)   \* 9: two receivers with one shape
+    [] c = 10 -> CatEntry(TTF, <<P(1, 2), D(2, "a", "as"), G(1, "a"), S(1, "a"), G(1, "a")>>, ProtoFocus)   \* 10: unique receiver and unique prototype, accessor on the prototype
+    [] c = 11 -> CatEntry(FFF, <<P(1, 2)>>, ProtoFocus \cup {D(1, "b", "dw")})   \* 11: nothing set up: the sites start cold
+NCat == 11
 
 -----------------------------------------------------------------------------
 IsAccess(op) == op.op \in {"G", "S", "N"}
@@ -127,41 +118,54 @@ Do(op) ==
      \/ op.op = "E" /\ PreventExt(op.o)
      \/ op.op = "F" /\ Freeze(op.o)
 
+\* does the mutation change the reference graph?  (cheap test made before the expensive step)
+Changes(op, t) ==
+  CASE op.op = "D" -> RefDefine(objs, op.o, DescOf(op.d, op.k, t)).O # objs
+    [] op.op = "X" -> RefDelete(objs, op.o, op.k).O # objs
+    [] op.op = "P" -> RefSetProto(objs, op.o, op.p).O # objs
+    [] op.op = "E" -> objs[op.o].ext
+    [] op.op = "F" -> RefFreeze(objs, op.o) # objs
+    [] OTHER -> TRUE
+
 Commute(a, b) == ~IsAccess(a) /\ ~IsAccess(b) /\ a.op # "P" /\ b.op # "P" /\ a.o # b.o
 
 Init ==
   /\ cat \in CatSel
   /\ pc = 1
   /\ nfree = 0
-  /\ InitWith(Cat[cat].uq, Cat[cat].glob)
+  /\ InitWith(CatAt(cat).uq, CatAt(cat).glob)
+  /\ prev = [o \in Objs |-> EmptyObj]
 
 Scripted ==
-  /\ pc <= Len(Cat[cat].pre)
-  /\ Do(Cat[cat].pre[pc])
+  /\ pc <= Len(CatAt(cat).pre)
+  /\ Do(CatAt(cat).pre[pc])
   /\ pc' = pc + 1
+  /\ prev' = objs
   /\ UNCHANGED <<cat, nfree>>
 
 Free ==
-  /\ pc > Len(Cat[cat].pre)
+  /\ pc > Len(CatAt(cat).pre)
   /\ nfree < H
-  /\ \E op \in Cat[cat].alpha :
+  /\ \E op \in CatAt(cat).alpha :
        /\ nfree = H - 1 => IsAccess(op)
        /\ (nfree > 0 /\ Commute(log[Len(log)], op)) => log[Len(log)].o < op.o
+       /\ IsAccess(op) \/ Changes(op, Len(log) + 1)
        /\ Do(op)
-       /\ IsAccess(op) \/ objs' # objs
   /\ nfree' = nfree + 1
+  /\ prev' = objs
   /\ UNCHANGED <<cat, pc>>
 
 Next == Scripted \/ Free
 
 Spec == Init /\ [][Next]_mcvars
 
-Done == pc > Len(Cat[cat].pre) /\ nfree = H
+Done == pc > Len(CatAt(cat).pre) /\ nfree = H
 
 Emit ==
-  Done => PrintT(<<"REPLAY", ToJson([cat |-> cat, uq |-> uq, glob |-> glob, npre |-> Len(Cat[cat].pre), log |-> log,
+  Done => PrintT(<<"REPLAY", ToJson([cat |-> cat, uq |-> uq, glob |-> glob, npre |-> Len(CatAt(cat).pre), log |-> log,
                                      final |-> objs, cfinal |-> cst.O, ufinal |-> ust.O])>>)
 
-\* the model gate of the check: properties of the reference state and of the mechanism's bookkeeping
-EsInv == [][EsStep(objs, objs')]_mcvars
+\* the model gate of the check: the invariants of the essential internal methods (ECMA-262 6.1.7.3) hold
+\* along every step of the reference graph (prev is the graph before the last step)
+EsInv == EsStep(prev, objs)
 =============================================================================
